@@ -99,7 +99,13 @@ impl EventGen for ReuseElement {
         // We remove it here and re-add as a class.
         // However we *do* want the instance element to inherit any `id` which
         // was on the `reuse` element.
-        let ref_id = instance_element.pop_attr("id");
+        let own_id = instance_element.pop_attr("id");
+        // the id the target is registered under (the template's `id` attribute may be an
+        // expression, which the variables of this reuse would evaluate differently)
+        let ref_id = match &elref {
+            ElRef::Id(id) => Some(id.clone()),
+            ElRef::Prev => own_id,
+        };
         if let Some(inst_id) = reuse_element.get_attr("id") {
             instance_element.set_attr("id", &inst_id);
             context.update_element(&reuse_element);
